@@ -18,6 +18,7 @@ from __future__ import annotations
 
 import ast
 import operator
+import sys
 from typing import Any, Callable, Optional
 
 from .core import AnalysisError, loc, src
@@ -1302,6 +1303,9 @@ class Interp:
                 self.set_class_attr(obj.ci, t.attr, v)
             elif isinstance(obj, EnumVal):
                 GLOBAL_STATE["modconst"].setdefault(("enumattrs", obj.cls, obj.name), {})[t.attr] = v
+            elif obj is None or isinstance(obj, (bool, int, float, str, tuple, list, dict, set, frozenset)):
+                raise AbsRaise(f"AttributeError: '{type(obj).__name__}' object has no attribute '{t.attr}' (store {src(t)})",
+                               loc(fi.unit.path, t) if fi else "")
             else:
                 raise AnalysisError("ABSINT", f"attribute store outside fragment: {src(t)}")
         elif isinstance(t, ast.Subscript):
@@ -1377,6 +1381,10 @@ class Interp:
             gi = self.special(v, "__getitem__")
             if gi is not None:
                 return _getitem_iter(self, v, gi)
+        if isinstance(v, AObj) and self.pm.has_cls(v._cls) and not self.pm.cls(v._cls).unit.env and v._f.get("_complete", True):
+            raise AbsRaise(f"TypeError: '{v._cls}' object is not iterable")      # no __iter__ / __getitem__ on its class
+        if v is None or isinstance(v, (bool, int, float)) or isinstance(v, EnumVal):
+            raise AbsRaise(f"TypeError: '{type(v).__name__ if not isinstance(v, EnumVal) else v.cls}' object is not iterable")
         raise AnalysisError("ABSINT", f"iteration over non-iterable abstract value {v!r}")
 
     def eval(self, n: ast.expr, env: dict[str, Any], fi: Optional[FuncInfo]) -> Any:  # noqa: C901
@@ -2218,6 +2226,11 @@ class Interp:
                     if m.is_static():
                         return FuncRef(m)
                     return BoundMethod(obj, m)
+            if self.pm.has_cls(obj.cls) and not any(c.unit.env and (attr in c.methods or attr in c.class_attrs)
+                                                    for c in self.pm.mro(self.pm.cls(obj.cls))) \
+                    and attr not in ("__doc__", "__module__", "__hash__", "__eq__", "__str__", "__repr__", "__reduce_ex__",
+                                     "__format__", "__dir__", "__members__"):
+                raise AbsRaise(f"AttributeError: '{obj.cls}' object has no attribute '{attr}'", where)
             raise AnalysisError("ABSINT", f"enum attribute {attr} outside fragment", where)
         if isinstance(obj, ModuleRef):
             if obj.name in _PURE_MODULES:
@@ -2528,6 +2541,8 @@ class Interp:
                     return getattr(obj, attr)(*args, **kwargs)
                 except (IndexError, KeyError, ValueError, AttributeError, TypeError) as exc:
                     raise AbsRaise(f"{type(exc).__name__} at {src(n)}", where) from exc
+            if not hasattr(obj, attr):
+                raise AbsRaise(f"AttributeError: '{type(obj).__name__}' object has no attribute '{attr}' at {src(n)}", where)
             raise AnalysisError("ABSINT", f"method {attr} of {type(obj).__name__} outside fragment",
                                 where)
         if callable(f) and not isinstance(f, (AObj, ClassRef, FuncRef, BoundMethod, Lambda, LocalFunc, ModuleRef,
@@ -2540,6 +2555,13 @@ class Interp:
             except StopIteration as exc:
                 if isinstance(getattr(f, "__self__", None), AGen):
                     raise AbsRaise("StopIteration", where) from exc
+                raise
+            except TypeError as exc:
+                owner = getattr(f, "__self__", None)
+                if owner is not None and not isinstance(owner, type(sys)) and not type(owner).__module__.startswith("sa") \
+                        and ("positional argument" in str(exc) or "unexpected keyword" in str(exc) or "missing" in str(exc)):
+                    # a method of a library object (a parse-tree node ...) called with the wrong arguments
+                    raise AbsRaise(f"TypeError: {exc}", where) from exc
                 raise
         if isinstance(f, ModuleRef):
             hook = self.native.get(f.name)
@@ -2644,6 +2666,10 @@ class Interp:
         if name == "isinstance":
             v, t = args
             ts = t if isinstance(t, tuple) and not (len(t) == 2 and t[0] in ("builtin", "exc")) else (t,)
+            for tt in ts:
+                if not (isinstance(tt, (ClassRef, type)) or (isinstance(tt, tuple) and len(tt) == 2 and tt[0] in ("builtin", "exc"))
+                        or isinstance(tt, ModuleRef)):
+                    raise AbsRaise("TypeError: isinstance() arg 2 must be a type, a tuple of types, or a union", where)
             for tt in ts:
                 if isinstance(tt, type) and not isinstance(v, (AObj, OrdInt, EnumVal)):
                     if isinstance(v, tt):
@@ -2852,6 +2878,8 @@ class Interp:
             raise AnalysisError("ABSINT", "setattr outside fragment", where)
         if name == "getattr":
             v, a = args[0], args[1]
+            if not isinstance(a, str):
+                raise AbsRaise(f"TypeError: attribute name must be string, not '{a._cls if isinstance(a, AObj) else type(a).__name__}'", where)
             try:
                 return self.getattr(v, a, n, None)
             except AbsRaise:
@@ -2887,7 +2915,12 @@ class Interp:
         if name == "round":
             if any(isinstance(a, OrdInt) for a in args):
                 raise AnalysisError("CARD", "round() of an ordinal", where)
-            return round(*args)
+            if any(isinstance(a, (AObj, EnumVal)) for a in args):
+                raise AbsRaise("TypeError: round() of an object", where)
+            try:
+                return round(*args)
+            except (TypeError, ValueError, OverflowError) as exc:
+                raise AbsRaise(f"{type(exc).__name__}: {exc}", where) from exc
         if name == "print":
             return None
         if name == "reversed":
